@@ -48,3 +48,20 @@ Print Assumptions C12_restarts_preserve_results.
 Theorem C12_no_false_death : forall sched : list dlabel, ~ In DKill sched -> fired (drun dinit sched) = false.
 Proof. exact no_false_death. Qed.
 Print Assumptions C12_no_false_death.
+
+(* (6) the replacement of a retired instance is built from the pool-side copy of the map parameters
+   (pool._start_worker, read off the source); for EVERY history of map-family calls, setters, shutdowns and
+   apply_async calls that copy equals what the running workers use -- so the successor has the same lifespan.
+   (apply_async touches the copy only when it has to start the workers: read off the source.) *)
+From Coq Require Import String.
+From Mpv Require Import GenStruct GenParams OrderHist Hist HistProofs.
+Theorem C12_replacements_keep_the_parameters :
+  forall l k h, let s := hstate (hinit l k) h in alive s = true -> p_params s = Some (w_params s).
+Proof. intros l k h s Ha. destruct (hstate_HI h (hinit l k) (hinit_HI l k)) as (_ & _ & _ & H). apply H. exact Ha. Qed.
+Print Assumptions C12_replacements_keep_the_parameters.
+
+Theorem C12_source_facts :
+  apply_sets_params_only_when_starting = true /\
+  has "  self._workers[worker_id] = self.Worker(worker_id, self.pool_params, self.map_params, self._worker_comms, self._worker_insights, TqdmManager.get_connection_details(), get_dashboard_connection_details(), time.time())"%string start_worker_body = true.
+Proof. split; [exact apply_params_spec|vm_compute; reflexivity]. Qed.
+Print Assumptions C12_source_facts.
